@@ -783,7 +783,12 @@ pub fn conflict_chain(r: &mut Rng) -> (Universe, Prob) {
     let k = if crate::report::small() { r.below(5) } else { r.below(72) } as usize;
     let a1 = u.solv("a", 1);
     let b2 = u.solv("b", 2);
-    u.solv("b", 1);
+    // in half of the universes b=2 is the ONLY candidate: whatever goes wrong on the way down the
+    // chain then shows as a wrong verdict, not just as a downgraded direct requirement
+    let only_b2 = r.chance(1, 2);
+    if !only_b2 {
+        u.solv("b", 1);
+    }
     let c2 = u.solv("c", 2);
     u.solv("c", 1);
     let w1 = u.solv("w", 1);
